@@ -100,7 +100,7 @@ def impl(case):
 
 def make_case(rng, i, tier):
     syms = rng.sample(ALPH, rng.choice([2, 3, 3]))
-    a, shape = gen.gen_wfsa(rng, nstates=rng.choice([1, 2, 3]), shape=rng.choice(["plain", "multi_init_final", "eps", "parallel", "named_like_symbols", "acyclic", "init_is_final"]))
+    a, shape = gen.gen_wfsa(rng, nstates=rng.choice([1, 2, 3]), shape=rng.choice(["plain", "multi_init_final", "eps", "eps_cycle", "parallel", "named_like_symbols", "acyclic", "init_is_final"]))
     a2, _ = gen.gen_wfsa(rng, nstates=rng.choice([1, 2]), shape=rng.choice(["plain", "acyclic", "init_is_final"]))
 
     def relabel(d):
